@@ -97,7 +97,7 @@ def type_sig(t, depth=0):
                 tuple((f.name, f.offset, f.bits, type_sig(f.type, depth + 1)) for f in t.__fields__))
     if issubclass(t, BaseArray):
         n = t.num_entries
-        n = n if isinstance(n, int) or n is None else f"expr:{n.expression}"
+        n = n if isinstance(n, int) or n is None else "expr:" + "".join(str(n.expression).split())
         return ("array", n, bool(t.null_terminated), t.size, t.alignment, type_sig(t.type, depth + 1))
     if issubclass(t, Pointer):
         return ("ptr", t.size, t.alignment, re.sub(r"__anonymous_\d+__", "__anon__", t.type.__name__))
